@@ -227,6 +227,15 @@ def HTree.leaves (t : HTree) : List Nat := (t.nodes.filter (fun n => n.edges.len
 /-- junction pointers carried by live nodes -/
 def HTree.junctionsOf (t : HTree) : List Nat := t.nodes.filterMap (·.junction)
 
+/-- side condition of the terminal-set theorems, decided on a concrete heap: no zero-length edge with a
+    non-fixed route ends at a leaf (`deg` = degree in the abstract multigraph) -/
+def noLeafZerob (t : HTree) : Bool :=
+  t.edges.all (fun e => e.hasFixedRoute || !zeroLength t e ||
+    (match e.e1, e.e2 with
+     | some a, some b => decide (2 ≤ AdaptaVerif.Check.Tree.deg t.graphE a) &&
+                         decide (2 ≤ AdaptaVerif.Check.Tree.deg t.graphE b)
+     | _, _ => false))
+
 /-! ## the improver's state and rewrites (hyperedgeimprover.cpp) -/
 
 structure Imp where
